@@ -20,10 +20,11 @@ def build_dataset():
     from pydap.model import BaseType, DatasetType, GridType, SequenceType, StructureType
     ds = DatasetType("d", title="isolation", history=["a", "b"])
     ds["x"] = BaseType("x", np.arange(24, dtype="i4").reshape(2, 3, 4), units="m")
-    ds["f"] = BaseType("f", np.linspace(0, 1, 6).reshape(2, 3), attributes={"valid": [0.0, 1.0]})
+    # float64 data holding the value its _FillValue attribute names (a function must not write into what is served)
+    ds["f"] = BaseType("f", np.linspace(0, 1, 6).reshape(2, 3), attributes={"valid": [0.0, 1.0], "_FillValue": 0.2})
     ds["s"] = BaseType("s", np.array(["ab", "c", ""]))
     g = GridType("g", note="grid")
-    g["a"] = BaseType("a", np.arange(12, dtype="f8").reshape(3, 4), dims=("y", "z"))
+    g["a"] = BaseType("a", np.arange(12, dtype="f8").reshape(3, 4), dims=("y", "z"), missing_value=5.0)
     g["y"] = BaseType("y", np.arange(3) * 10.0)
     g["z"] = BaseType("z", np.arange(4) * 100.0)
     ds["g"] = g
@@ -48,6 +49,13 @@ def build_dataset():
     lz["v"] = BaseType("v")
     lz.data = IterData([(np.int32(i), np.float64(i) / 2) for i in range(5)], lz)
     ds["lz"] = lz
+    # a lazy sequence whose column mixes Python types across rows: the declared type is taken from the first selected record,
+    # per request - and must not be remembered from an earlier request
+    mx = SequenceType("mx")
+    mx["a"] = BaseType("a")
+    mx["b"] = BaseType("b")
+    mx.data = IterData([(1, 1), (2, 2.5), (3, 3), (4, 4.25)], mx)
+    ds["mx"] = mx
     return ds
 
 
@@ -88,6 +96,7 @@ REQUESTS = [
     # selections made of function calls only (the middleware strips them and filters what the handler returns)
     "/d.dods?bounds(0,25,0,5,0,20,0,9)", "/d.ascii?loc.lon&bounds(0,25,0,5,0,20,0,9)", "/d.dods?loc.t,q.a&bounds(15,35,0,5,0,30,0,9)",
     "/d.dods?loc&bounds(0,25,0,5,0,20,0,9)&loc.t>1",
+    "/d.dods?mx", "/d.dods?mx&mx.a>1", "/d.dds?mx&mx.a>1", "/d.dods?mx.b&mx.a>2", "/d.ascii?mx&mx.a>1", "/d.dds?mx",
     "/d.dods?nope", "/d.dods?x[5:9]", "/d.dods?q&q.zz>1", "/d.xyz", "/d", "/d.dods?x[0:1", "/d.dods?mean(nope,0)", "/d.dods?q&q.a>>1",
 ]
 
@@ -151,9 +160,11 @@ def run_threads(app, urls, decide, granularity):
             if "/pydap/" not in frame.f_code.co_filename:
                 return None
             if event == "call":
+                if granularity == "resp":      # the points are the lines inside the response encoders, nothing else
+                    return tracer if "/pydap/responses/" in frame.f_code.co_filename else None
                 sched.point(tid)
                 return tracer if granularity == "line" else None
-            if event == "line" and granularity == "line":
+            if event == "line" and granularity in ("line", "resp"):
                 sched.point(tid)
             return tracer
         sched.start(tid)
@@ -279,13 +290,14 @@ def main():
         urls = list(urls)
         ds = build_dataset()
         app = ServerSideFunctions(BaseHandler(ds))
-        res, sc = run_threads(app, urls, lambda tid, k, alive: tid, "line")
+        res, sc = run_threads(app, urls, lambda tid, k, alive: tid, "resp")
         if not check(urls, res, sc, "no preemption (line counting)"):
             continue
         n0 = sc.count[0]
-        step = max(1, n0 // 1500) if T != "quick" else max(1, n0 // 120)
+        # points: every line executed inside pydap/responses (where records are packed and emitted)
+        step = 1 if T != "quick" else max(1, n0 // 700)
         for k0 in range(1, n0 + 1, step):
-            res, sc2 = run_threads(app, urls, lambda tid, k, alive, k0=k0: 1 if (tid == 0 and k == k0) else tid, "line")
+            res, sc2 = run_threads(app, urls, lambda tid, k, alive, k0=k0: 1 if (tid == 0 and k == k0) else tid, "resp")
             stats["single_preemption"] += 1
             if not check(urls, res, sc2, "single preemption at line event %d of %d" % (k0, n0)):
                 break
